@@ -274,11 +274,12 @@ def run(ctx):
     evals = 0
     distinct = set()
     samples = []
-    tot = {k: 0 for k in ("gate", "match", "undet", "ext", "bd", "index_skipped", "cert_ok", "cert_stuck", "cert_glr", "cert_skipped", "relex_checked", "relex_equal", "refusals", "reused_inner", "reused_leaf", "reused_bytes", "lexed", "nodes", "clean")}
+    tot = {k: 0 for k in ("gate", "match", "undet", "ext", "bd", "index_skipped", "cert_ok", "cert_stuck", "cert_glr", "cert_skipped", "relex_checked", "relex_equal", "gloop_reused", "refusals", "reused_inner", "reused_leaf", "reused_bytes", "lexed", "nodes", "clean")}
     by_lang = {}
     kinds = {"chunked": 0, "ranges": 0, "exhaustive_single_char": 0, "multi_step": 0}
     corr_bad = judge_bad = 0
     unsorted_diffs = 0
+    gloop = {"ok": 0, "skipped": 0, "MISMATCH": 0}
     relex_unknown = 0
     lr_doc = {"ok": 0, "stuck": 0, "glr_ok": 0, "glr_stuck": 0, "skipped": 0, "MISMATCH": 0}
     lr_by_lang = {}
@@ -299,6 +300,7 @@ def run(ctx):
         for k in ("cert_ok", "cert_stuck", "cert_glr"):
             ll[k] += int(kv.get(k, "0") or 0)
         unsorted_diffs += kv.get("diffs_sorted", "1") == "0"
+        gloop[kv.get("gloop", "skipped")] = gloop.get(kv.get("gloop", "skipped"), 0) + 1
         bl = by_lang.setdefault(lang, {"cases": 0, "clean": 0, "reused_inner": 0})
         bl["cases"] += 1
         bl["clean"] += int(kv.get("clean", "0") or 0)
@@ -382,6 +384,9 @@ def run(ctx):
         "correspondence": {"compared": tot["gate"], "equal": tot["match"], "undetermined_state_after_breakdown": tot["undet"],
                            "breakdown_lookahead_decisions_compared": tot["bd"],
                            "external_scanner_state_comparisons_recomputed": tot["ext"],
+                           "gate_loop_model_on_real_trees": {"cases_ok": gloop["ok"], "skipped_not_token_preserving_or_glr": gloop["skipped"], "mismatch": gloop["MISMATCH"],
+                                                         "inner_nodes_pushed_whole_by_the_model_loop": tot["gloop_reused"], "inner_nodes_reused_by_the_real_parser": tot["reused_inner"],
+                                                         "what": "LR.gloop (GateLoop.lean) run on the edited old dump (marks, parse states) with the new tokens and the dumped table; must accept with the real scratch tree"},
                            "hypotheses_on_real_data": {"LexLocal_tokens_checked": tot["relex_checked"], "LexLocal_tokens_equal": tot["relex_equal"],
                                                        "RangesSorted_cases_violating": unsorted_diffs},
                            "explained_only_by_difference_index_skipping": tot["index_skipped"],
